@@ -135,4 +135,123 @@ theorem callInputs_of_inputsOK {α : Type} (c : Ctor) (flds : List (String × Fi
     have hx2 : x.2 = x.1 := h1 x (List.mem_of_find?_eq_some hfind)
     simp [hx2, hx1]
 
+/-! spellings (error branch included) -/
+
+/-- what a conforming constructor does with one attribute, for every spelling -/
+def expectedAttrE (spelled : String → Spell) (a : SAttr) (w : AttrWire) : Option (Option (String × Val)) :=
+  if rejects a (spelled a.name) then Option.none else some (acceptedAttr spelled a w)
+
+/-- what `defaultOK` says, case by case -/
+theorem defaultOK_cases (optional : Bool) (k : AttrKind) (pd : Option Val) (a : SAttr)
+    (h : defaultOK optional k pd a = true) :
+    (a.required = true ∧ optional = false ∧ pd = Option.none ∧ a.default = Val.none) ∨
+    (a.required = false ∧ a.default = Val.none ∧ optional = true ∧ pd = some Val.none) ∨
+    (a.required = false ∧ a.default ≠ Val.none ∧ optional = false ∧
+      ∃ v, pd = some v ∧ v ≠ Val.none ∧ encode k v = a.default) := by
+  unfold defaultOK at h
+  by_cases hreq : a.required = true
+  · simp only [hreq, if_true, Bool.and_eq_true, beq_iff_eq] at h
+    obtain ⟨⟨ho, hpn⟩, hdn⟩ := h
+    left
+    exact ⟨hreq, by simpa using ho, by simpa using hpn, hdn⟩
+  · have hreq' : a.required = false := by simpa using hreq
+    simp only [hreq', Bool.false_eq_true, if_false] at h
+    by_cases hdn : a.default = Val.none
+    · simp only [hdn, beq_self_eq_true, if_true, Bool.and_eq_true, beq_iff_eq] at h
+      right; left
+      exact ⟨hreq', hdn, h.1, h.2⟩
+    · have hb : (a.default == Val.none) = false := by simpa using hdn
+      simp only [hb, Bool.false_eq_true, if_false] at h
+      right; right
+      cases hpd : pd with
+      | none => rw [hpd] at h; simp at h
+      | some v =>
+        rw [hpd] at h
+        simp only [Bool.and_eq_true, bne_iff_ne, ne_eq, beq_iff_eq] at h
+        obtain ⟨ho, hv, he⟩ := h
+        exact ⟨hreq', hdn, by simpa using ho, v, rfl, hv, he⟩
+
+theorem callAttrE_of_attrOK (ps : List Param) (f : AttrField) (w : AttrWire) (a : SAttr)
+    (spelled : String → Spell) (h : attrOK ps f w a = true) :
+    callAttrE ps spelled w = expectedAttrE spelled a w := by
+  unfold attrOK at h
+  simp only [Bool.and_eq_true, beq_iff_eq] at h
+  obtain ⟨⟨⟨⟨⟨⟨⟨_, _⟩, hon⟩, hpar⟩, _⟩, hk⟩, hm⟩, hrest⟩ := h
+  cases hf : findParam ps a.name with
+  | none => rw [hf] at hrest; simp at hrest
+  | some p =>
+    rw [hf] at hrest
+    simp only [Bool.and_eq_true] at hrest
+    obtain ⟨_, hd⟩ := hrest
+    have hc := defaultOK_cases _ _ _ _ hd
+    unfold callAttrE expectedAttrE acceptedAttr
+    rw [hpar]
+    cases hs : spelled a.name with
+    | ok v => simp [bound, mkAttr, rejects, hon]
+    | bad => simp [bound, mkAttr, rejects]
+    | none =>
+      rcases hc with ⟨hr, ho, _, _⟩ | ⟨hr, hdn, ho, _⟩ | ⟨hr, hdn, ho, _⟩
+      · simp [bound, mkAttr, rejects, hm, ho, hr]
+      · simp [bound, mkAttr, rejects, hm, ho, hr, hdn]
+      · simp [bound, mkAttr, rejects, hm, ho, hr, hdn]
+    | omitted =>
+      rcases hc with ⟨hr, ho, hp, _⟩ | ⟨hr, hdn, ho, hp⟩ | ⟨hr, hdn, ho, v, hp, hv, he⟩
+      · simp [bound, hf, hp, rejects, hr]
+      · simp [bound, hf, hp, mkAttr, rejects, hm, ho, hr, hdn]
+      · have hb : bound ps a.name Spell.omitted = some (Spell.ok v) := by
+          simp only [bound, hf, hp]
+        rw [hb]
+        simp [mkAttr, rejects, hr, hdn, hon, hk, he]
+
+theorem callAttrsE_of_attrsOK (ps : List Param) (spelled : String → Spell) :
+    (fs : List AttrField) → (ws : List AttrWire) → (as : List SAttr) →
+    attrsOK ps fs ws as = true →
+    ws.map (callAttrE ps spelled) = List.zipWith (expectedAttrE spelled) as ws
+  | [], [], [], _ => rfl
+  | f :: fs, w :: ws, a :: as, h => by
+    simp only [attrsOK, Bool.and_eq_true] at h
+    simp only [List.map_cons, List.zipWith_cons_cons]
+    rw [callAttrE_of_attrOK ps f w a spelled h.1, callAttrsE_of_attrsOK ps spelled fs ws as h.2]
+  | [], [], _ :: _, h => by simp [attrsOK] at h
+  | [], _ :: _, _, h => by simp [attrsOK] at h
+  | _ :: _, [], _, h => by simp [attrsOK] at h
+  | _ :: _, _ :: _, [], h => by simp [attrsOK] at h
+
+theorem allSome_eq_none {γ : Type} (l : List (Option γ)) :
+    allSome l = Option.none ↔ Option.none ∈ l := by
+  induction l with
+  | nil => simp [allSome]
+  | cons x xs ih =>
+    cases x with
+    | none => simp [allSome]
+    | some a =>
+      cases hx : allSome xs with
+      | none => simp [allSome, hx, ih.mp hx]
+      | some l =>
+        have : ¬ (Option.none ∈ xs) := fun hm => by rw [ih.mpr hm] at hx; cases hx
+        simp [allSome, hx, this]
+
+theorem allSome_map_some {γ : Type} (r : List γ) : allSome (r.map some) = some r := by
+  induction r with
+  | nil => rfl
+  | cons b bs ih => simp [allSome, ih]
+
+theorem allSome_eq_some {γ : Type} (l : List (Option γ)) (r : List γ) :
+    allSome l = some r ↔ l = r.map some := by
+  constructor
+  · intro h
+    induction l generalizing r with
+    | nil => simp [allSome] at h; subst h; rfl
+    | cons x xs ih =>
+      cases x with
+      | none => simp [allSome] at h
+      | some a =>
+        cases hx : allSome xs with
+        | none => simp [allSome, hx] at h
+        | some l' =>
+          simp only [allSome, hx, Option.some.injEq] at h
+          subst h
+          simp [ih l' hx]
+  · intro h; subst h; exact allSome_map_some r
+
 end Conform
